@@ -8,7 +8,7 @@
   `unexpanded_descriptors`, `template_data`) and its value.  Values:
 
     * `.int n`      – a Python `int` (what `uint` parameters hold; `n_subsets` is one of them),
-    * `.opaque v`   – anything else that `subset` only copies (bit strings, booleans, bytes, the
+    * `.other v`     – anything else that `subset` only copies (bit strings, booleans, bytes, the
                       list of unexpanded descriptors, ...); the type `α` is abstract,
     * `.data rows`  – a `TemplateData` object, of which `subset` reads only
                       `decoded_values_all_subsets`: one list of decoded values per subset; the
@@ -33,7 +33,7 @@ namespace Bufr.Subset
 
 inductive PVal (α β : Type) where
   | int (n : Int)
-  | opaque (v : α)
+  | other (v : α)
   | data (rows : List (List β))
   deriving Repr, DecidableEq
 
